@@ -196,7 +196,7 @@ def _c03_vm_sample(d, tier, coq, build, want=280):
 
 CONFIG = {
     "properties_file": "Properties/C03.v",
-    "proof_files": ["Base/Prelude.v", "Proofs/FindRoots.v", "Proofs/FindRootsCopy.v", "Proofs/FindRootsMem.v"],
+    "proof_files": ["Base/Prelude.v", "Proofs/FindRoots.v", "Proofs/FindRootsCopy.v", "Proofs/FindRootsMem.v", "Proofs/FindRootsAll.v"],
     "model_files": ["Generated/GC03.v", "Model/FindRoots.v"],
     "extract": "XC03.v",
     "ml_main": "c03_main.ml",
